@@ -2,7 +2,7 @@
    Only statements, each closed by [exact] of a lemma proved elsewhere, with Print Assumptions. *)
 From Coq Require Import List NArith Bool.
 Import ListNotations.
-Require Import Parser SBase SFetch Pipe Grammar C02base C02tail C02run C02anchors C02anchorsRun ParseNode ParseNodeTie.
+Require Import Parser SBase SFetch Pipe Grammar C02base C02tail C02run C02anchors C02anchorsRun ParseNode ParseNodeTie SBuf C02text.
 
 (* One step of the pull parser, from any state satisfying the stack/grammar invariant and for any
    remaining token stream: it never panics, the event it yields is accepted by the grammar acceptor,
@@ -44,3 +44,18 @@ Theorem C02_node_dispatcher_is_source : forall (p : parser) (aid : N) (tg : opti
    run_nact (node_dispatch (kind_of (snd t)) block indentless (has_props aid tg)) p' (fst t) (snd t) aid tg).
 Proof. exact tbl_node_content. Qed.
 Print Assumptions C02_node_dispatcher_is_source.
+
+(* TEXT LEVEL.  For EVERY text the events of the whole model pipeline form a sentence prefix accepted by the acceptor - a whole
+   sentence (GEnd) when the run ends without error - and their anchor ids are 1, 2, 3, ... with every alias pointing back;
+   over the string input and over the buffered input of every capacity >= 8 (C10: run_buf cap x = run_str x). *)
+Theorem C02_text_run : forall (x : list N),
+  (exists g, grun GInit (evs_of (fst (run_str x))) = Some g /\ (snd (run_str x) = PDone -> g = GEnd))
+  /\ (exists n, arun 0 (evs_of (fst (run_str x))) = Some n).
+Proof. exact text_run_wellformed. Qed.
+Print Assumptions C02_text_run.
+
+Theorem C02_text_run_buffered : forall (cap : nat) (x : list N), (8 <= cap)%nat ->
+  (exists g, grun GInit (evs_of (fst (run_buf cap x))) = Some g /\ (snd (run_buf cap x) = PDone -> g = GEnd))
+  /\ (exists n, arun 0 (evs_of (fst (run_buf cap x))) = Some n).
+Proof. exact text_run_wellformed_buffered. Qed.
+Print Assumptions C02_text_run_buffered.
